@@ -1,5 +1,283 @@
-import EvoModel.Model.SettingsProc
+/-
+C19 — the settings file stays loadable across crashes and concurrent starts.
+
+Model: `Model/FS.lean`, `Model/SettingsProc.lean` (programs of atomic file-system steps exactly as
+evo/tools/settings.py and evo/main_config.py issue them after fix 703b53e; a run = any finite
+schedule of any number of processes; a process that is no longer scheduled has been killed there;
+a `write` may be torn).  Helper lemmas (soundness of the write discipline `Ok`): `Lemmas/FS.lean`.
+The tie of the programs to /repo is the trace correspondence of harness/props/C19.py.
+-/
+import EvoModel.Lemmas.FS
+import EvoModel.Drv.C19
+set_option linter.unusedSimpArgs false
 namespace Evo.C19
-open Evo.FS
-theorem safe_init_placeholder : Safe FS.fresh := Or.inl rfl
+open Evo Evo.FS
+
+/-- what must be known when a program ends: the loaded SETTINGS has every default key -/
+def Loaded (F : Facts) : Prop := F.loaded = true
+
+/-- what is known after `import evo` (and kept by every command) -/
+structure Ready (F : Facts) : Prop where
+  dir : F.dir = true
+  exS : F.ex .S = true
+  exV : F.ex .V = true
+  sGood : F.sGood = true
+  loaded : F.loaded = true
+
+/-! ## the routines of the repaired code follow the write discipline -/
+
+/-- `initialize_if_needed(); update_if_outdated(); load` followed by any accepted command -/
+theorem start_accepted {post : Facts → Prop} {k : Prog} (hk : ∀ F, Ready F → Ok post F k) :
+    Ok post {} (start k) := by
+  simp only [start, initProg, update, load, resetAll, writeAtomic, Ok, Facts.setTmp, Facts.setEx,
+    Facts.afterReplace, Facts.afterRead, SrcOk]
+  simp
+  repeat' apply And.intro
+  all_goals (apply hk; constructor <;> simp)
+
+theorem done_accepted (F : Facts) (hF : Ready F) : Ok Loaded F .done := hF.loaded
+
+theorem resetAll_accepted {post : Facts → Prop} {k : Prog}
+    (hk : ∀ F, Ready F → Ok post F k) (F : Facts) (hF : Ready F) : Ok post F (resetAll k) := by
+  simp only [resetAll, writeAtomic, Ok, Facts.setTmp, Facts.setEx,
+    Facts.afterReplace, Facts.afterRead, SrcOk]
+  simp [hF.dir, hF.exS, hF.sGood]
+  repeat' apply And.intro
+  all_goals (apply hk; constructor <;> simp [hF.dir, hF.exS, hF.exV, hF.sGood, hF.loaded])
+
+theorem resetSubset_accepted {post : Facts → Prop} {k : Prog} {f : Doc → Doc} (hf : KeyMono f)
+    (hk : ∀ F, Ready F → Ok post F k) (F : Facts) (hF : Ready F) : Ok post F (resetSubset f k) := by
+  simp only [resetSubset, writeAtomic, Ok, Facts.setTmp, Facts.setEx,
+    Facts.afterReplace, Facts.afterRead, SrcOk]
+  simp [hF.dir, hF.exS, hF.sGood, hf]
+  repeat' apply And.intro
+  all_goals (apply hk; constructor <;> simp [hF.dir, hF.exS, hF.exV, hF.sGood, hF.loaded])
+
+/-- `set_config` with any edit that keeps the keys (C18 `set_keys_invariant`) -/
+theorem setConfig_accepted {post : Facts → Prop} {k : Prog} {f : Doc → Doc} (hf : KeyMono f)
+    (hk : ∀ F, Ready F → Ok post F k) (F : Facts) (hF : Ready F) : Ok post F (setConfig f k) := by
+  simp only [setConfig, writeAtomic, Ok, Facts.setTmp, Facts.setEx,
+    Facts.afterReplace, Facts.afterRead, SrcOk]
+  simp [hF.dir, hF.exS, hF.sGood, hf]
+  apply hk; constructor <;> simp [hF.dir, hF.exS, hF.exV, hF.sGood, hF.loaded]
+
+/-- `merge_json_union` (soft or hard: the key set only grows, C18 `merge_hard_soft_semantics`) -/
+theorem mergeUnion_accepted {post : Facts → Prop} {k : Prog} {f : Doc → Doc} (hf : KeyMono f)
+    (hk : ∀ F, Ready F → Ok post F k) (F : Facts) (hF : Ready F) : Ok post F (mergeUnion f k) :=
+  setConfig_accepted (k := k) hf hk F hF
+
+theorem showCfg_accepted {post : Facts → Prop} {k : Prog}
+    (hk : ∀ F, Ready F → Ok post F k) (F : Facts) (hF : Ready F) : Ok post F (showCfg k) := by
+  simp only [showCfg, Ok, Facts.afterRead]
+  exact ⟨hF.exS, hk F hF⟩
+
+theorem keyMono_id : KeyMono id := fun _ h => h
+
+theorem keyMono_mergeEdit : KeyMono Drv.C19.mergeEdit := by
+  intro d h
+  unfold hasDefaults at *
+  rw [List.all_eq_true] at *
+  intro k hk
+  have := h k hk
+  simp only [Drv.C19.mergeEdit, List.contains_eq_mem, List.mem_append, decide_eq_true_eq] at this ⊢
+  exact Or.inl this
+
+/-- every scenario program the trace correspondence ties to /repo is accepted -/
+theorem traced_programs_accepted (name : String) (prog : Prog)
+    (h : Drv.C19.scenario "new" name = some prog) : Ok Loaded {} prog := by
+  unfold Drv.C19.scenario at h
+  split at h <;> first
+    | (cases h
+       first
+        | exact start_accepted done_accepted
+        | exact start_accepted (resetAll_accepted done_accepted)
+        | exact start_accepted (resetSubset_accepted keyMono_id done_accepted)
+        | exact start_accepted (setConfig_accepted keyMono_id done_accepted)
+        | exact start_accepted (mergeUnion_accepted keyMono_mergeEdit done_accepted)
+        | exact start_accepted (showCfg_accepted (setConfig_accepted keyMono_id (showCfg_accepted done_accepted)))
+        | exact start_accepted (showCfg_accepted (setConfig_accepted keyMono_id
+            (mergeUnion_accepted keyMono_mergeEdit (showCfg_accepted done_accepted))))
+        | exact start_accepted (resetAll_accepted (showCfg_accepted done_accepted))
+        | exact start_accepted (resetSubset_accepted keyMono_id (showCfg_accepted done_accepted)))
+    | simp_all
+
+/-- the pinned code before the fix does not follow the discipline (it opens the shared file for writing) -/
+theorem old_start_rejected (post : Facts → Prop) (k : Prog) : ¬ Ok post {} (Old.start k) := by
+  simp [Old.start, Old.initProg, Ok]
+
+/-! ## the invariant over all runs -/
+
+/-- **safe_init**: a consistent home (in particular an empty one) with any number of processes
+about to run accepted programs satisfies the invariant, hence `Safe`. -/
+theorem safe_init {post : Facts → Prop} (s : State) (h : Init post s) : PInv post s ∧ Safe s.fs :=
+  ⟨init_pinv h, h.1.1⟩
+
+theorem fresh_consistent : Consistent FS.fresh := ⟨Or.inl rfl, fun _ => Or.inl rfl⟩
+
+/-- **step_preserves_safe**: every step of every routine — whichever process takes it, torn or not,
+whoever else has written in between — keeps the invariant, hence `Safe`. -/
+theorem step_preserves_safe {post : Facts → Prop} (s : State) (h : PInv post s) (i : Nat) (tear : Bool) :
+    PInv post (s.sched i tear) ∧ Safe (s.sched i tear).fs :=
+  ⟨(sched_pinv h i tear).1, (sched_pinv h i tear).1.1.1⟩
+
+/-- **reachable_safe**: at every instant of every run (any number of processes, any interleaving,
+any crash points — a killed process is one that is not scheduled again), the settings file is
+absent or a complete JSON document. -/
+theorem reachable_safe {post : Facts → Prop} (s : State) (h : Init post s) (sched : List (Nat × Bool)) :
+    Safe (run s sched).fs :=
+  (run_pinv sched (init_pinv h)).1.1
+
+/-- once every default key is present (or the file is still absent) this stays so -/
+theorem reachable_good {post : Facts → Prop} (s : State) (h : Init post s) (hg : Good s.fs)
+    (sched : List (Nat × Bool)) : Good (run s sched).fs := by
+  have hp := init_pinv h
+  clear h
+  induction sched generalizing s with
+  | nil => exact hg
+  | cons e rest ih => exact ih _ ((sched_pinv hp e.1 e.2).2 hg) (sched_pinv hp e.1 e.2).1
+
+/-- **no_process_fails**: in no run does any process fail (no FileExistsError from `mkdir`, no
+FileNotFoundError, no JSONDecodeError), whatever the others do or wherever they are killed. -/
+theorem no_process_fails {post : Facts → Prop} (s : State) (h : Init post s) (sched : List (Nat × Bool))
+    (p : Proc) (hp : p ∈ (run s sched).procs) : p.failed = false := by
+  obtain ⟨j, hj⟩ := List.getElem?_of_mem hp
+  exact ((run_pinv sched (init_pinv h)).2 j p hj).1
+
+/-- every process that reaches its end has loaded a SETTINGS with every default key -/
+theorem finished_process_sees_all_keys (s : State) (h : Init Loaded s) (sched : List (Nat × Bool))
+    (j : Nat) (p : Proc) (hp : (run s sched).procs[j]? = some p) (hd : p.prog = .done) :
+    ∃ d, p.regs.loaded = some d ∧ hasDefaults d = true := by
+  obtain ⟨_, F, hok, hh⟩ := (run_pinv sched (init_pinv h)).2 j p hp
+  rw [hd] at hok
+  exact hh.loaded hok
+
+theorem size_zero_done (p : Prog) (h : p.size = 0) : p = .done := by
+  cases p <;> simp [Prog.size] at h ⊢
+
+theorem sched_self (s : State) (j : Nat) (tear : Bool) (p : Proc) (hp : s.procs[j]? = some p) :
+    (s.sched j tear).procs[j]? = some (step j tear p s.fs).1 := by
+  have hlt : j < s.procs.length := by
+    rcases Nat.lt_or_ge j s.procs.length with h' | h'
+    · exact h'
+    · rw [List.getElem?_eq_none h'] at hp; cases hp
+  have hget : s.procs[j] = p := by
+    have := List.getElem?_eq_getElem hlt; rw [this] at hp; exact Option.some.inj hp
+  simp [State.sched, hp, hlt, hget]
+
+/-- a process scheduled alone from any invariant state runs to its end without failing -/
+theorem solo_finishes {post : Facts → Prop} (n : Nat) (s : State) (h : PInv post s) (j : Nat) (p : Proc)
+    (hp : s.procs[j]? = some p) (hn : p.prog.size ≤ n) :
+    ∃ q, (run s (List.replicate n (j, false))).procs[j]? = some q ∧ q.prog = .done ∧ q.failed = false := by
+  induction n generalizing s p with
+  | zero =>
+    exact ⟨p, hp, size_zero_done _ (Nat.le_zero.mp hn), (h.2 j p hp).1⟩
+  | succ n ih =>
+    have h' := (sched_pinv h j false).1
+    have hp' := sched_self s j false p hp
+    refine ih (s.sched j false) h' _ hp' ?_
+    have hnf := (h'.2 j _ hp').1
+    by_cases hd : p.prog.isDone = true
+    · have : p.prog = .done := by cases hpp : p.prog <;> simp_all [Prog.isDone]
+      have hs : (step j false p s.fs).1 = p := by
+        obtain ⟨prog, regs, failed⟩ := p
+        simp only at this; subst this
+        cases failed <;> simp [step]
+      rw [hs, this]; simp [Prog.size]
+    · have := step_size j false p s.fs hnf (by simpa using hd)
+      omega
+
+/-- **start_after_any_run_loads**: after any run from a consistent home — whatever was interleaved
+or killed before — any process (in particular one that has not started yet: a fresh
+`initialize; update; load`) that is now left to run terminates, does not fail, and has loaded
+every default key. -/
+theorem start_after_any_run_loads (s : State) (h : Init Loaded s) (sched : List (Nat × Bool))
+    (j : Nat) (p : Proc) (hp : (run s sched).procs[j]? = some p) :
+    ∃ q, (run (run s sched) (List.replicate p.prog.size (j, false))).procs[j]? = some q ∧
+      q.prog = .done ∧ q.failed = false ∧ ∃ d, q.regs.loaded = some d ∧ hasDefaults d = true := by
+  have hinv := run_pinv sched (init_pinv h)
+  obtain ⟨q, hq, hd, hnf⟩ := solo_finishes _ _ hinv j p hp (Nat.le_refl _)
+  refine ⟨q, hq, hd, hnf, ?_⟩
+  obtain ⟨_, F, hok, hh⟩ := (run_pinv _ hinv).2 j q hq
+  rw [hd] at hok
+  exact hh.loaded hok
+
+/-! ## non-vacuity: concrete runs of the repaired programs -/
+
+/-- two first starts on an empty home form an initial state -/
+example : Init Loaded ⟨FS.fresh, [⟨start .done, {}, false⟩, ⟨start .done, {}, false⟩]⟩ :=
+  ⟨fresh_consistent, fun p hp => by
+    simp only [List.mem_cons, List.not_mem_nil, or_false, or_self] at hp
+    subst hp; exact ⟨rfl, start_accepted done_accepted⟩⟩
+
+/-- first start alone on an empty home: 14 steps, then settings.json is the complete default document -/
+example : ((run ⟨FS.fresh, [⟨start .done, {}, false⟩]⟩ (List.replicate 14 (0, false))).fs.file (.file .S)).wf = true := by
+  decide
+
+/-- killed in the middle of the (torn) write of the temp file: settings.json still absent;
+the next process initialises and loads -/
+example :
+    let s := run ⟨FS.fresh, [⟨start .done, {}, false⟩, ⟨start .done, {}, false⟩]⟩
+      (List.replicate 9 (0, false) ++ [(0, true)])
+    s.fs.file (.file .S) = .absent ∧ s.fs.file (.tmp .S 0) = .torn ∧
+    ((run s (List.replicate 14 (1, false))).procs[1]?.map fun p => (p.prog.isDone, p.failed, p.regs.loaded.map hasDefaults))
+      = some (true, false, some true) := by
+  decide
+
+/-! ## the pinned code before fix 703b53e: kernel-checked counterexamples (finding F4) -/
+
+/-- **settings_unsafe_crash**: first start of the old code on an empty home, killed after its 9th
+step (`open(settings.json,'w')` has truncated, nothing written yet): the file exists and is empty. -/
+theorem settings_unsafe_crash :
+    let s := run ⟨FS.fresh, [⟨Old.start .done, {}, false⟩]⟩ (List.replicate 9 (0, false))
+    s.fs.file (.file .S) = .empty ∧ ¬ Safe s.fs := by
+  decide
+
+/-- the same with a torn write: a proper prefix of the JSON text is on disk -/
+theorem settings_unsafe_torn :
+    let s := run ⟨FS.fresh, [⟨Old.start .done, {}, false⟩]⟩ (List.replicate 9 (0, false) ++ [(0, true)])
+    s.fs.file (.file .S) = .torn ∧ ¬ Safe s.fs := by
+  decide
+
+/-- **later_start_fails_forever**: with an empty (or torn) settings.json next to a current version file
+every later start — of the old *and* of the repaired code — fails at the load and leaves the home
+as it was, so the next one fails as well.  (This is why `Safe` must hold at every instant.) -/
+theorem later_start_fails_forever (fs : FS) (hd : fs.dir = true)
+    (hV : fs.file (.file .V) = .full (.ver current))
+    (hS : fs.file (.file .S) = .empty ∨ fs.file (.file .S) = .torn) :
+    (∀ k, let s := run ⟨fs, [⟨Old.start k, {}, false⟩]⟩ (List.replicate 5 (0, false))
+      s.procs.map (·.failed) = [true] ∧ s.fs.dir = true ∧ s.fs.file (.file .V) = fs.file (.file .V) ∧
+        s.fs.file (.file .S) = fs.file (.file .S)) ∧
+    (∀ k, let s := run ⟨fs, [⟨start k, {}, false⟩]⟩ (List.replicate 5 (0, false))
+      s.procs.map (·.failed) = [true] ∧ s.fs.dir = true ∧ s.fs.file (.file .V) = fs.file (.file .V) ∧
+        s.fs.file (.file .S) = fs.file (.file .S)) := by
+  have hVa : fs.file (.file .V) ≠ .absent := by rw [hV]; simp
+  have hSa : fs.file (.file .S) ≠ .absent := by rcases hS with h | h <;> rw [h] <;> simp
+  constructor <;> intro k <;> rcases hS with hS | hS <;>
+    simp [run, State.sched, step, Old.start, Old.initProg, Old.update, start, initProg, update, load,
+      hd, hV, hS, Proc.fail, List.replicate]
+
+/-- **settings_unsafe_race** (load): two first starts of the old code on an empty home; the first has just
+truncated settings.json when the second one starts: it sees the file, skips the initialisation and
+dies in `json.load`. -/
+theorem settings_unsafe_race_load :
+    let s := run ⟨FS.fresh, [⟨Old.start .done, {}, false⟩, ⟨Old.start .done, {}, false⟩]⟩
+      (List.replicate 9 (0, false) ++ List.replicate 5 (1, false))
+    s.procs.map (·.failed) = [false, true] := by
+  decide
+
+/-- **settings_unsafe_race** (mkdir): both test `exists()`, both call `mkdir()`: the second raises. -/
+theorem settings_unsafe_race_mkdir :
+    let s := run ⟨FS.fresh, [⟨Old.start .done, {}, false⟩, ⟨Old.start .done, {}, false⟩]⟩
+      [(0, false), (1, false), (0, false), (1, false)]
+    s.procs.map (·.failed) = [false, true] := by
+  decide
+
+/-- an in-place edit (`evo_config set`) of the old code killed between truncate and write loses the settings -/
+theorem old_set_crash_loses_settings :
+    let fs0 : FS := ((⟨true, fun _ => .absent⟩ : FS).set (.file .V) (.full (.ver current))).set (.file .S)
+      (.full (.doc Evo.Gen.defaultKeys))
+    let s := run ⟨fs0, [⟨Old.start (Old.setConfig id .done), {}, false⟩]⟩ (List.replicate 7 (0, false))
+    Consistent fs0 ∧ s.fs.file (.file .S) = .empty := by
+  decide
+
 end Evo.C19
